@@ -95,8 +95,11 @@ func errWrongElementType(desc string, expected, actual reflect.Type) error {
 	return fmt.Errorf("wrong %s, expected %s, got: %v", desc, expected, actual)
 }
 
-func errMapKeyNotHashable(actual reflect.Type) error {
-	return fmt.Errorf("wrong map key, expected hashable type, got: %v", actual)
+func errMapKeyNotHashable(actual reflect.Value) error {
+	for actual.Kind() == reflect.Interface && !actual.IsNil() {
+		actual = actual.Elem()
+	}
+	return fmt.Errorf("wrong map key, expected hashable value, got: %v", actual.Type())
 }
 
 func errWrongElementTypes(desc string, expected1, expected2, actual reflect.Type) error {
